@@ -21,6 +21,7 @@ import (
 	"testing"
 	"testing/synctest"
 
+	"github.com/KafScale/platform/pkg/broker"
 	"github.com/KafScale/platform/pkg/cache"
 	"github.com/KafScale/platform/pkg/metadata"
 	"github.com/KafScale/platform/pkg/protocol"
@@ -347,6 +348,8 @@ func lgRunSchedule(t *testing.T, sc lgSched) (lines []map[string]any, hits map[s
 			h.cache = cache.NewSegmentCache(1 << 20)
 			h.flushOnAck = true
 			h.autoCreateTopics = false
+			// the S3 health gate is C25's subject: keep the monitor from ever leaving "healthy" here
+			h.s3Health = broker.NewS3HealthMonitor(broker.S3HealthConfig{ErrorWarn: 2, ErrorCrit: 3, LatencyWarn: 1 << 60, LatencyCrit: 1 << 61})
 			return h
 		}
 		h := mk()
@@ -632,13 +635,37 @@ func lgRunSchedule(t *testing.T, sc lgSched) (lines []map[string]any, hits map[s
 						stt := plog.VerifStateLocked()
 						ev["next"], ev["st"] = stt.Next, stt
 						up = true
-						// offsets at or above the reopened log's next offset died with the old broker's buffer
+						// The reopened log consists of exactly the segments it registered: rebuild the
+						// reference from the bucket (buffered batches died with the old broker, and an
+						// orphan segment of an unacknowledged flush may have become part of the log).
 						refMu.Lock()
 						for b := range ref {
-							if b >= stt.Next {
-								delete(ref, b)
+							delete(ref, b)
+						}
+						s3.mu.Lock()
+						for key, body := range s3.seg {
+							sb := lgBaseOfKey(key)
+							registered := false
+							for _, sg := range stt.Segs {
+								if sg[0] == sb {
+									registered = true
+								}
+							}
+							if !registered {
+								continue
+							}
+							pos, end := 32, len(body)-16
+							for pos+61 <= end {
+								cnt := int(int32(binary.BigEndian.Uint32(body[pos+57 : pos+61])))
+								sz := 61 + 9*cnt
+								if cnt <= 0 || pos+sz > end {
+									break
+								}
+								ref[int64(binary.BigEndian.Uint64(body[pos:pos+8]))] = append([]byte(nil), body[pos:pos+sz]...)
+								pos += sz
 							}
 						}
+						s3.mu.Unlock()
 						refMu.Unlock()
 					} else {
 						h.coordinator.Stop()
